@@ -89,6 +89,14 @@ ASetCtrlpts(k) ==      \* obj.ctrlpts = P : weights are kept
   /\ "set_ctrlpts" \in Acts
   /\ Step([a |-> "set_ctrlpts", k |-> k, P |-> NewPts(obj, k)],
           [obj EXCEPT !.P = IF obj.rat THEN Combine(NewPts(obj, k), Weights(obj)) ELSE NewPts(obj, k)])
+\* obj.ctrlpts = P with FEWER points than before (curves): the first weights are kept; the knot vector is left as it is,
+\* so the definition is incomplete until a knot vector is assigned - the views must already be consistent
+AShrinkCtrlpts(k) ==
+  /\ "shrink_ctrlpts" \in Acts /\ obj.rat /\ PDim(obj) = 1 /\ obj.size[1] > obj.deg[1] + 1
+  /\ LET n == obj.size[1] - 1
+         P == SubSeq(NewPts(obj, k), 1, n)
+         W == SubSeq(Weights(obj), 1, n) IN
+     Step([a |-> "shrink_ctrlpts", k |-> k, P |-> P], [obj EXCEPT !.P = Combine(P, W), !.size = <<n>>])
 ASetWeights(k) ==      \* obj.weights = W : unweighted points are kept
   /\ "set_weights" \in Acts /\ obj.rat
   /\ Step([a |-> "set_weights", k |-> k, W |-> NewWts(obj, k)], [obj EXCEPT !.P = Combine(Ctrlpts(obj), NewWts(obj, k))])
